@@ -2,6 +2,7 @@ package props
 
 import (
 	"fmt"
+	"github.com/jmattheis/goverter/config"
 	"sort"
 	"strings"
 	"testing"
@@ -58,6 +59,16 @@ func c03CheckProgram(s *vh.Session, c progCase) (string, bool) {
 	if err != nil {
 		return "INFRA: generated program does not load: " + vh.FirstLines(err.Error(), 8), false
 	}
+	// A verdict must not depend on what was generated before in the same run: the converter is
+	// first generated with enum detection excluded for every enum type of the program (result
+	// ignored), then as it is. Anything remembered per type across converters shows as a
+	// disagreement with the model below.
+	if decoy := enumExcludeLines(c.Conv); len(decoy) > 0 {
+		_ = loaded.PerConverter(nil, func(rc *config.RawConverter) {
+			rc.Converter.Lines = append(append([]string{}, rc.Converter.Lines...), decoy...)
+		})
+		s.Label("decoy:enum-exclude-first")
+	}
 	res := loaded.PerConverter(nil, nil)
 	if len(res) != 1 {
 		return fmt.Sprintf("INFRA: expected one converter, got %d", len(res)), false
@@ -86,6 +97,20 @@ func c03CheckProgram(s *vh.Session, c progCase) (string, bool) {
 		return "success without files", true
 	}
 	return "", true
+}
+
+// enumExcludeLines: one enum:exclude line per declared type that has constants.
+func enumExcludeLines(c *model.Conv) []string {
+	var out []string
+	for _, pk := range c.Prog.Pkgs {
+		for _, d := range pk.Types {
+			if len(d.Consts) > 0 {
+				out = append(out, "enum:exclude "+c.Prog.ImportPath(pk.Key)+":"+d.Name)
+			}
+		}
+	}
+	sort.Strings(out)
+	return out
 }
 
 func progSummary(c *model.Conv) string {
